@@ -64,6 +64,9 @@ def gen_item_C19(rng, idx, tier):
             events.append(['multi', slot, [rng.randrange(1000) for _ in range(rng.randint(2, 5))]])
         else:
             events.append(['slice', rng.randrange(shape[0])])
+    if rng.random() < 0.3:
+        # fault path: a user callback that raises once, registered somewhere before the last event
+        events.insert(rng.randrange(len(events)), ['badcb'])
     return {'case': case, 'ops': ops, 'events': events, 'ncb': rng.randint(0, 2),
             'nanrow': rng.randrange(1000) if rng.random() < 0.35 else None}
 
@@ -120,14 +123,31 @@ def eval_C19(item):
     lines = v.lines
     cur_slice = v.slice
     n_before = 0
+    def guarded(f, *args):
+        # a user callback registered by a 'badcb' event raises once; it is the last one registered, so every view has
+        # been notified when the exception leaves the hub
+        try:
+            f(*args)
+        except impl.Injected:
+            res['tags'].append('callback-raised')
     for ev in item['events']:
         masks.clear()
+        if ev[0] == 'badcb':
+            armed = {'on': True}
+
+            def bad(sid, armed=armed):
+                if armed['on']:
+                    armed['on'] = False
+                    raise impl.Injected('callback failed on purpose')
+            v.hub.add_callback(bad)
+            model_events.insert(2 + item['ncb'], 'cb')
+            continue
         try:
             with warnings.catch_warnings():
                 warnings.simplefilter('ignore')
                 if ev[0] == 'click':
                     _, slot, ix, iy, frac_ = ev
-                    v.select_from_map(Ev(button=slot, inaxes=v.ax_image, xdata=ix + frac_, ydata=iy + frac_))
+                    guarded(v.select_from_map, Ev(button=slot, inaxes=v.ax_image, xdata=ix + frac_, ydata=iy + frac_))
                     coord = (iy, ix) if nd == 2 else (cur_slice, iy, ix)
                     lab = obs['lmap'][int(np.ravel_multi_index(coord, shape))]
                     model_events.append('click.%d.%s' % (slot, 'none' if lab == -1 else lab))
@@ -136,7 +156,7 @@ def eval_C19(item):
                     _, slot, i1, i2 = ev
                     n = len(lines.structures)
                     inds = sorted(set([i1 % n, i2 % n]))
-                    v.line_picker(Ev(mouseevent=Ev(button=slot), artist=lines, ind=np.array(inds)))
+                    guarded(v.line_picker, Ev(mouseevent=Ev(button=slot), artist=lines, ind=np.array(inds)))
                     cands = [int(lines.structures[i].idx) for i in inds]
                     # "the structure that line was drawn for": one of the picked lines' structures (highest peak)
                     best = max(structs[c]['peaksub'][1] for c in cands)
@@ -163,13 +183,13 @@ def eval_C19(item):
                     verts = lasso_around(np.column_stack((np.asarray(cat['x_cen'], dtype=float), np.asarray(cat['y_cen'], dtype=float))), rows)
                     if verts is None:
                         continue
-                    cb(verts)
+                    guarded(cb, verts)
                     model_events.append('lasso.%d.%s' % (slot, '+'.join(str(r) for r in rows) or '-'))
                     expect_first = None if not rows else row_ids[rows[0]]
                 elif ev[0] == 'multi':
                     _, slot, rs = ev
                     rows = sorted(set(r % len(row_ids) for r in rs))
-                    v.hub.select(slot, [d[row_ids[r]] for r in rows], subtree=False)
+                    guarded(v.hub.select, slot, [d[row_ids[r]] for r in rows], False)
                     model_events.append('lasso.%d.%s' % (slot, '+'.join(str(r) for r in rows)))
                     expect_first = row_ids[rows[0]]
                 else:
